@@ -74,6 +74,14 @@ type Arith struct {
 	mode Mode
 }
 
+// ridSort: sort of region identifiers and opaque handles.
+func (a *Arith) ridSort() Sort {
+	if a.mode == ModeBV {
+		return SBV(64)
+	}
+	return SInt
+}
+
 func (a *Arith) idxSort() Sort {
 	if a.mode == ModeBV {
 		return SBV(64)
@@ -497,16 +505,16 @@ func (a *Arith) scalarSortOrEmpty(t types.Type) Sort {
 		case u.Info()&types.IsFloat != 0:
 			return SReal
 		case u.Info()&types.IsString != 0:
-			return SInt
+			return a.ridSort()
 		case u.Kind() == types.UnsafePointer:
-			return SInt
+			return a.ridSort()
 		case u.Kind() == types.UntypedNil:
-			return SInt
+			return a.ridSort()
 		case u.Info()&types.IsComplex != 0:
-			return SInt
+			return a.ridSort()
 		}
 	case *types.Map, *types.Chan, *types.Signature, *types.Interface:
-		return SInt
+		return a.ridSort()
 	}
 	return ""
 }
